@@ -42,6 +42,16 @@ CHECKS = {
          'Seeded search over op sequences of up to 25 operations with grid invariants after every op and op-specific reference checks (extension leaves classes untouched, third moment preserved on covering re-mesh, maxBins respected, reset/revert restore, moment functions depend only on the supplied distribution).',
          'Admissible PBM configurations only; revert only after a backup; PSD recording is not part of C08. Known finding: coarsening re-mesh can drop a sparse distribution entirely.',
          'DESIGN.md 4/C08'),
+ 'C12': ('exploration', 1200, 7200,
+         'deterministic simulation: real KWN model under seeded schedules with a growth-sign monitor at every accepted step (growth, class boundaries and critical radius read at the same instant); static thermodynamic relations evaluated at states a real Al-Zr trajectory visits',
+         'In-run clause checked at every step of every run (stub and real backends, binary and multicomponent, all site types/shapes); static clauses (dG(x_alpha(g)) = g, monotonicity, sentinel monotonicity, sign change at the solvus, agreement of the four methods) at visited states of real Al-Zr runs.',
+         'Static clauses are input sampling along trajectories, not a sweep. Band around R* excluded (stub 1e-6; real 2% + offset). Known finding: curvature driving-force method at large supersaturation.',
+         'DESIGN.md 4/C12'),
+ 'C14': ('exploration', 1200, 7200,
+         'deterministic simulation: setter-history state machine on nucleation parameter objects compared with fresh twins; precipitation worlds with a tap on _calcNucleationSites and per-step checks; Clemm-Fisher / CNT reference formulas as oracles at visited states',
+         'Cache coherence of geometric factors after any setter order (bitwise vs fresh object), site budget in runs (non-negative, bounded, consumed by occupancy), per-step sanity of Rcrit/Gcrit/impingement/rate, reference formulas and identities at every visited state.',
+         'k values and driving forces are those visited (sample, not sweep); N0 is configuration; the dislocation site type is exempt from N0-based clauses (kawin resolves it through the bulk branch: recorded as an observation in DESIGN.md). Known finding: negative barrier when R* is clamped on grain-boundary sites.',
+         'DESIGN.md 4/C14'),
 }
 
 NOT_APPLICABLE = {
